@@ -1247,6 +1247,34 @@ impl Sim {
                 }
                 self.stat("world.side_fork");
             }
+            Action::ForgeFork { src, back, n, forged, kind, salt } => {
+                self.last_event_kind = "forgefork".into();
+                if src >= self.world.branches.len() {
+                    return;
+                }
+                let tip = self.world.tip_number(src);
+                let at = tip.saturating_sub(back.max(1));
+                let tag = self.world.branches.len() as u64;
+                let nb = self.world.fork(src, at, tag);
+                let n = n.max(1);
+                // kinds 0..2: compact target of the last blocks; kinds 3..6: the length declared
+                // by the first block of the next epoch on the branch
+                let k = kind % 7;
+                if k >= 3 {
+                    self.world.forge_epoch = Some((nb, k - 3, salt));
+                }
+                for i in 0..n {
+                    if k < 3 && i + forged.max(1) >= n {
+                        self.world.forge_next = Some((k, salt.wrapping_add(i)));
+                    }
+                    self.world.mine(nb, abs_now(self.now));
+                }
+                self.world.forge_epoch = None;
+                self.stat("world.forged_branch");
+                if self.world.branches[nb].forged {
+                    self.stat(&format!("fault.byz.forged_chain.kind{}", k));
+                }
+            }
             Action::SwitchBranch { peer, branch } => {
                 self.last_event_kind = "switch".into();
                 if peer >= self.peers.len() || branch >= self.world.branches.len() {
